@@ -210,16 +210,12 @@ def run(ctx):
     quick = ctx.tier == "quick"
     plans = [([J], 1, False) for J in range(5)] + [(None, 3, False), ([1, 2], 2, True), ([3], 1, True)] if quick else \
         [([J], 1, False) for J in range(5)] * 2 + [([J, 2], 2, True) for J in range(1, 5)] + [(None, None, False)] * 30
-    for n, (Jl, nres, beyond) in enumerate(plans):
-        M0, mf, res = build(rnd, Jl, nres, beyond)
-        cfg = run_config(ctx, rnd, "g%d" % n, M0, mf, res, 3 if quick else 5, cases, vcases=(vcases if (n < 5 or not quick and n % 4 == 0) else None))
-        if n == 0:
-            ctx.sample({"config": cfg})
-    # history: models with the SAME particle names and other spins were evaluated earlier in this process (decays compare equal
+    # history FIRST (before this process has evaluated any spin-0-parent model of these names): models with the SAME particle names
+    # and other spins were evaluated earlier in this process (decays compare equal
     # by name, so anything cached through them would leak: the LS-helicity matrix did before /repo a1f549d).  The same (l, s)
     # list with another parent spin is the critical pattern: A(1-) -> R(1-) D and A(0-) -> R(1-) D both have ls = ((1,1),).
     from tf_pwa.config_loader import ConfigLoader
-    for hn, (Jres, ptop) in enumerate([(1, (1, -1)), (2, (1, 1))] if quick else [(1, (1, -1)), (2, (1, 1)), (1, (2, -1)), (3, (1, -1))]):
+    for hn, (Jres, ptop) in enumerate([(1, (1, -1)), (2, (1, -1))] if quick else [(1, (1, -1)), (2, (1, -1)), (1, (2, -1)), (3, (1, -1)), (4, (1, -1))]):
         M0, mf, res = build(rnd, [Jres], 1, False)
         try:
             c0 = ConfigLoader(ampkit.three_body_config(M0, mf, res, top=ptop))
@@ -230,6 +226,11 @@ def run(ctx):
             ctx.count("history:alternative_not_loadable")
             ctx.notes.append("history model J_A=%s not loadable: %r" % (ptop, e))
         run_config(ctx, rnd, "h%d" % hn, M0, mf, res, 2, cases, vcases=vcases)
+    for n, (Jl, nres, beyond) in enumerate(plans):
+        M0, mf, res = build(rnd, Jl, nres, beyond)
+        cfg = run_config(ctx, rnd, "g%d" % n, M0, mf, res, 3 if quick else 5, cases, vcases=(vcases if (n < 5 or not quick and n % 4 == 0) else None))
+        if n == 0:
+            ctx.sample({"config": cfg})
     for c in cases[:: max(1, len(cases) // 4)]:
         ctx.sample({"case": c[0], "goal": c[1][:500]})
     res = common.coq_cases(ctx, "c04", HEADER, [c[:3] for c in cases], per_file=6, case_timeout=60)
